@@ -559,6 +559,8 @@ def fraction_strict_coercion_loader(data):
             return Fraction(data)
         except ValueError:
             raise ValueLoadError("Bad string format", data)
+        except ZeroDivisionError as e:
+            raise ValueLoadError(str(e), data)
     raise TypeLoadError(Union[str, Fraction], data)
 
 
@@ -572,7 +574,7 @@ def fraction_lax_coercion_loader(data):
         if str_e.startswith("Invalid literal"):
             raise ValueLoadError("Bad string format", data)
         raise ValueLoadError(str(e), data)
-    except OverflowError as e:
+    except (OverflowError, ZeroDivisionError) as e:
         raise ValueLoadError(str(e), data)
 
 
